@@ -220,13 +220,18 @@ def family_worker(job):
     fin = getattr(checkers, ck + "_finish", None)
     if fin is not None:
         fin(prop, agg)
+    for f in agg.fails:      # how to re-execute exactly the history that produced this failure (hermetic job)
+        f.setdefault("job", {"fn": "nslmc.engine:family_worker", "arg": list(job)})
     return agg.result()
 
 
 def run_families(prop, ck, fams, tier, seed, extra=None, shards_per_family=None):
+    from . import families
     jobs = []
     for fam in fams:
-        ns = shards_per_family or pool.shards()
+        # jobs are hermetic (one fresh interpreter each), so do not cut small families into many pieces
+        nseeds = sum(1 for _ in families.REGISTRY[fam](tier))
+        ns = shards_per_family or max(1, min(pool.NPROC * 2, nseeds // 40))
         for s in range(ns):
             jobs.append((prop, ck, fam, tier, s, ns, extra))
     rot = seed % len(jobs) if seed else 0
